@@ -27,6 +27,8 @@ def decorate(ctx, kind, w):
         src = 0 if style == "single" else 1 if style == "chain" else rng.choice(SRC)
         arr.append({"t": a["t"], "sz": a["sz"], "src": src})
     sc = {"kind": kind, "cfg": cfg, "arr": arr}
+    if rng.random() < 0.15:
+        sc["t0"] = rng.choice([-50, -7, -1, 3, 100])      # the environment's clock does not start at 0
     if kind == "trtb" and not cfg.get("PIR"):
         # a peak burst size without a peak rate is still "no PIR given": the committed bucket alone shapes
         if w.get("idle_pbs") or rng.random() < 0.3:
@@ -94,7 +96,7 @@ def coincide(ctx, sc, tr):
         return None
     for a in arr[k:]:
         a["src"] = rng.choice(SRC)
-    return dict({"kind": sc["kind"], "cfg": sc["cfg"], "arr": arr}, **({"idle_pbs": sc["idle_pbs"]} if sc.get("idle_pbs") else {}))
+    return dict({"kind": sc["kind"], "cfg": sc["cfg"], "arr": arr}, **{k: sc[k] for k in ("idle_pbs", "t0") if sc.get(k)})
 
 
 def classify(ctx, sc, tr):
